@@ -182,6 +182,10 @@ PROPERTIES['C05'] = {
          bounds='3 handles, contents <=2 symbolic ints, 1 arbitrary operation (8 kinds) on an arbitrary handle', targets=['src/vec.h Vec<int,true>'])
     for c in range(5)
   ] + [
+    dict(name='sharedvec_two_steps', harness='c05_vec.cpp', entry='h_sharedvec_two_steps', defs={'VF_N': 2}, backends=['minisat'], timeout=1500, unwind={'default': 5}, cbmc=['--memory-leak-check', '--slice-formula'], object_bits=11, mem_gb=24,
+         cdefs=['VF_ALLOC_CLASSES=VF_C(4) VF_C(8) VF_C(12) VF_C(16) VF_C(24) VF_C(512) VF_C(1024)', 'VF_ALLOC_STRICT'],
+         claim='SharedVec<int>: a handle possibly emptied without releasing storage (clear(false), pop_back) is shared; three alternating MakeUnique+mutation steps on the two handles never change what the other handle observes; no use-after-free, double free or leak',
+         bounds='contents <=2 symbolic ints, 3 steps (push_back / resize / element write), 3 pre-states', targets=['src/vec.h Vec<int,true>::MakeUnique, push_back, resize, reserve, clear, pop_back, dealloc, operator=']),
     dict(name='halfedges', harness='c05_vec.cpp', entry='h_halfedges', backends=['minisat'], timeout=1200, unwind={'default': 8}, cbmc=['--memory-leak-check', '--slice-formula'], object_bits=11, mem_gb=20,
          cdefs=['VF_ALLOC_CLASSES=VF_C(4) VF_C(12) VF_C(24) VF_C(28) VF_C(48) VF_C(512)'],
          claim='Halfedges wrappers (MakeUnique, MakeInvalid, Set, push_back, resize, clear) on one handle leave a sharing handle unchanged', bounds='<=6 halfedges, 1 operation', targets=['src/shared.h Halfedges']),
@@ -349,7 +353,7 @@ PROPERTIES['C01'] = {
 }
 
 _C08_OBL = dict(name='export_t3', harness='c08_export.cpp', entry='h_export', defs={'VF_T': 3, 'VF_V': 3, 'VF_M': 3}, models=['rbtree.h', 'stdlib.h'],
-     unwind={'default': 4, 'h_export': 13}, recursion={'default': 2}, cbmc=['--slice-formula'], backends=['minisat'], timeout=1800, object_bits=12, mem_gb=24,
+     unwind={'default': 4, 'h_export': 13, 'resize|fill|copy_m': 13}, recursion={'default': 2}, cbmc=['--slice-formula'], backends=['minisat'], timeout=1800, object_bits=12, mem_gb=24,
      cdefs=['VF_ALLOC_CLASSES=VF_C(1) VF_C(2) VF_C(4) VF_C(8) VF_C(12) VF_C(16) VF_C(24) VF_C(32) VF_C(36) VF_C(48) VF_C(64) VF_C(72) VF_C(96) VF_C(128) VF_C(192) VF_C(256) VF_C(288) VF_C(384) VF_C(512)'],
      claim='GetMeshGLImpl<double,uint64_t> on a derived (non-original) Impl with 3 triangles over 3 mesh instances: run table well formed (numRun+1 non-decreasing indices from 0 to 3*numTri, multiples of 3, runs with triangles sorted by originalID), every output triangle is exactly one source triangle and carries that triangle\'s vertex indices, its three halfedge tangents, its face ID, and sits in a run whose originalID / transform / backSide / hasNormals are those of its own mesh instance; positions exported verbatim',
      bounds='3 triangles, 3 vertices, 3 mesh instances with arbitrary originalIDs in 0..2, arbitrary finite transforms/tangents/positions, numProp = 0',
@@ -379,3 +383,13 @@ PROPERTIES['C18'] = {
          claim='Impl::IsIndexInBounds(triVerts) <=> every index in [0, NumVert); NumTri/NumEdge/NumVert/NumPropVert/IsEmpty follow the array sizes', bounds='2 triangles, all int indices', targets=['properties.cpp Impl::IsIndexInBounds', 'impl.h counting accessors']),
   ],
 }
+PROPERTIES['C10']['obligations'] += [
+    dict(name='isconvex_gate_n%d' % n, harness='c10_convex.cpp', entry='h_isconvex', defs={'VF_LEN': n, 'VF_R': 2}, real='f16', models=['stdlib.h'],
+         unwind={'default': n + 2}, recursion={'default': 2}, backends=['minisat', 'kissat'], timeout=900, object_bits=12,
+         cdefs=['VF_ALLOC_CLASSES=VF_C(24) VF_C(48) VF_C(96) VF_C(192)'],
+         tiers=['quick', 'thorough'] if n == 4 else ['thorough'],
+         claim='IsConvex(polygon, eps) == true implies no reflex vertex (exact integer orientation >= 0 at every vertex) and no zero-length edge, for every lattice polygon whose vertices are not all one point (repeated points included): only then is the zig-zag TriangulateConvex fast path admissible',
+         bounds='%d lattice vertices in [-2,2]^2, any eps in [0,4]; IEEE binary16 arithmetic for normalize/determinant' % n, targets=['polygon.cpp IsConvex', 'linalg normalize, determinant2x2'])
+    for n in (4, 5)]
+PROPERTIES['C10']['level_text'] = 'Bounded model checking of the predicates the triangulator and its convex fast path are built on: CCW with zero tolerance equals the sign of the exact integer determinant on a lattice and is antisymmetric for every tolerance; IsConvex, the gate of the zig-zag fast path, only accepts lattice polygons without a reflex vertex and without zero-length edges.'
+PROPERTIES['C10']['level_note'] = 'Predicates only (CCW, IsConvex). Ear clipping, keyholing, HalfedgeTriangulation pairing, TriangulateConvex itself, termination and independence from triangulator reuse are NOT covered (std::multiset/linked-list state of the ear clipper is outside what the encoder reaches at a useful size).'
